@@ -27,7 +27,12 @@ def scratch_root():
     global _scratch_root
     if _scratch_root is None:
         _scratch_root = tempfile.mkdtemp(prefix='sqverif_')
-        atexit.register(shutil.rmtree, _scratch_root, True)
+        owner = os.getpid()
+
+        def cleanup(root=_scratch_root):
+            if os.getpid() == owner:      # forked workers must not remove the parent's scratch
+                shutil.rmtree(root, True)
+        atexit.register(cleanup)
     return _scratch_root
 
 
@@ -121,7 +126,7 @@ def run_tlc(module, cfg=None, workers=16, env=None, timeout=900, simulate=None, 
             seed=None, coverage=False, extra=(), cwd=SPEC, heap='8g', deadlock=False):
     """Run TLC on spec/<module>.tla with spec/<cfg>; returns TlcResult."""
     md = tempfile.mkdtemp(prefix='md_', dir=scratch_root())
-    cmd = ['timeout', str(timeout), 'java', '-XX:+UseParallelGC', '-Xmx' + heap, '-cp', TLA_CP, 'tlc2.TLC',
+    cmd = ['timeout', str(timeout), 'java', '-XX:+UseParallelGC', '-Xss64m', '-Xmx' + heap, '-cp', TLA_CP, 'tlc2.TLC',
            '-workers', str(workers), '-metadir', md, '-noGenerateSpecTE']
     if cfg:
         cmd += ['-config', cfg]
